@@ -204,6 +204,9 @@ type msg struct {
 	finish bool
 }
 
+// StuckTotal counts actors that never came back (each costs one watchdog period).
+var StuckTotal int
+
 // Sim is one run.
 type Sim struct {
 	Plan      Plan
@@ -211,6 +214,7 @@ type Sim struct {
 	Trace     []Ev
 	Decisions []Decision
 	Problems  []string // harness-level trouble (stuck actor, unknown goroutine)
+	Stranded  []string // callers that blocked although the engine was force-closed
 
 	calls   []*callState
 	actors  map[string]*actor
@@ -346,7 +350,7 @@ func (o *output) Decode(b *bin.Buffer) error {
 // ---- construction ----
 
 func New(p Plan, stepped bool) *Sim {
-	s := &Sim{Plan: p, actors: map[string]*actor{}, msgs: make(chan msg, 64), Stepped: stepped, Timeout: 5 * time.Second}
+	s := &Sim{Plan: p, actors: map[string]*actor{}, msgs: make(chan msg, 64), Stepped: stepped, Timeout: 2 * time.Second}
 	s.schedG = goid()
 	s.clk = &fclock{s: s}
 	for i, cp := range p.Calls {
@@ -577,7 +581,13 @@ func (s *Sim) await(a *actor) bool {
 				s.problem("actor %s moved while %s was scheduled (point %s)", m.a.name, a.name, m.point)
 			}
 		case <-t.C:
-			s.problem("stuck: actor %s did not reach a scheduling point after %s (last point %s)", a.name, s.Timeout, a.point)
+			if a.kind == 'c' && s.fclosed {
+				// released into a select whose reqCtx.Done case is ready, yet it never came back
+				s.Stranded = append(s.Stranded, fmt.Sprintf("%s@%s", a.name, a.point))
+			} else {
+				s.problem("stuck: actor %s did not reach a scheduling point after %s (last point %s)", a.name, s.Timeout, a.point)
+			}
+			StuckTotal++
 			a.detached = true
 			return false
 		}
